@@ -104,8 +104,8 @@ Proof.
       * rewrite U' in U0.
         assert (LenE : length (cur r') = length (deps W j)) by (rewrite Alen; exact Len).
         destruct (@In_nth_error_len _ _ (deps W j) (cur r') (DJob k) Hk LenE) as (i' & y & Y1 & Y2).
-        assert (Z0 : count_nok (cur r') = 0%nat) by lia.
-        assert (y = DOK) by (apply (@count_nok_zero (cur r') Z0 i' y Y2)). subst y. eapply CO'; eauto.
+        assert (Z0 : count_nok (cur r') = 0%nat) by (apply Nat2Z.inj; exact U0).
+        assert (y = DOK) by (apply (@count_nok_zero (cur r') Z0 i' y Y2)). subst y. exact (CO' i' k Y2 Y1).
     + apply (I_RD I j k); auto. right. fold r. destruct PC as [X|(_&X)]; [rewrite <- X; exact IS|]. rewrite X in IS; discriminate. }
   assert (H10 : fdep r' = true -> exists k, In (DJob k) (deps W j) /\ st (jobs s k) = ERROR).
   { intros FD. destruct Af2 as [X|(NF & X)].
@@ -115,13 +115,36 @@ Proof.
   assert (H11 : launches r' = 1%nat -> forall k, In (DJob k) (deps W j) -> st (jobs s k) = DONE).
   { intros L1 k Hk. apply (I_LD I j k); auto. fold r. congruence. }
   assert (H12 : unfinished s' - unfinished s = (if counted (pc r') then 1 else 0) - (if counted (pc r) then 1 else 0)).
-  { rewrite EU. destruct PC as [X|(Y&X)]; rewrite X; try rewrite Y; simpl; lia. }
+  { clear - EU PC. rewrite EU. destruct PC as [X|(Y&X)]; rewrite X; try rewrite Y; simpl; lia. }
   assert (H13 : forall x, In x (failed s') <->
      In x (failed s) \/ (x = j /\ past_loop (pc r') = true /\ past_loop (pc r) = false /\ st r' <> DONE)).
   { intros x. rewrite EF. split; auto. intros [X|(_ & P & NP & _)]; auto.
-    destruct PC as [X|(_&X)]; rewrite X in P; congruence. }
+    destruct PC as [X|(_&X)]; rewrite X in P; [congruence|discriminate]. }
   assert (H14 : forall c, In c (queue s') -> In c (queue s) \/ cb_ok s' c).
   { intros c Hc. destruct EQ as [X|X]; rewrite X in Hc; auto.
     apply in_app_or in Hc. destruct Hc as [?|[<-|[]]]; auto. right. simpl. auto. }
   exact (@inv_update W s s' j r' WF I Jn EJ LI H1 H2 H3 H4 H5 H6 H7 H8 H9 H10 H11 H12 H13 H14).
+Qed.
+
+(* ------------------------------------------------------------------ steps that leave the jobs unchanged *)
+Lemma inv_frame : forall W s s', Inv W s -> jobs s' = jobs s -> unfinished s' = unfinished s ->
+  failed s' = failed s -> (forall c, In c (queue s') -> In c (queue s) \/ cb_ok s' c) -> Inv W s'.
+Proof.
+  intros W s s' I EJ EU EF Q. destruct I as [a b c d e f g h i0 j k].
+  constructor; unfold jl, cntf in *; rewrite ?EJ, ?EU, ?EF; auto.
+  intros c0 Hc. destruct (Q c0 Hc) as [X|X]; auto. specialize (k c0 X).
+    destruct c0; simpl in *; rewrite ?EJ; auto.
+Qed.
+
+Lemma in_remove_nth : forall A n (l : list A) x, In x (remove_nth n l) -> In x l.
+Proof. induction n; destruct l; simpl; intros; auto. destruct H; auto. Qed.
+
+Lemma inv_dequeue : forall W s n, Inv W s -> Inv W (s_queue s (remove_nth n (queue s))).
+Proof.
+  intros. apply inv_frame with (s := s); auto. simpl. intros c Hc. left. eapply in_remove_nth; eauto.
+Qed.
+
+Lemma inv_wait_check : forall W s, Inv W s -> Inv W (wait_check s).
+Proof.
+  intros. unfold wait_check. destruct (unfinished s =? 0); apply inv_frame with (s := s); auto.
 Qed.
